@@ -343,6 +343,7 @@ class PartialJoin(UnaryOperation):
 
     def commute(self, current: UnaryOperationRelation) -> UnaryCommutator:
         # Docstring inherited.
+        from ._calculation import Calculation
         from ._deduplication import Deduplication
         from ._projection import Projection
 
@@ -366,6 +367,15 @@ class PartialJoin(UnaryOperation):
                 return UnaryCommutator(
                     first=self,
                     second=Projection(frozenset(self.applied_columns(current))),
+                )
+            case Calculation(tag=tag) if tag in self.fixed.columns:
+                # Re-applying the calculation downstream of the join would
+                # collide with the fixed operand's column of the same name.
+                return UnaryCommutator(
+                    first=None,
+                    second=current.operation,
+                    done=False,
+                    messages=(f"calculated column {tag} is also present in {self.fixed}",),
                 )
             case _:
                 if not self.columns_required <= current.target.columns:
